@@ -2,8 +2,8 @@ from props import tu, run, FCO, NONULL
 
 _PARTS = 8
 # cases per part (same enumeration in both tiers): static refs u8/u16 (94, 48), u32/u64 (73), dynamic refs (34),
-# bit-aligned pixels (56, 32), packed pixels (6), iterators (288)
-_CASES = [94, 48, 73, 34, 56, 32, 6, 288]
+# bit-aligned pixels (56, 40), packed pixels (6), iterators (288); parts 2, 3, 5 include the wide (20..32-bit) channels
+_CASES = [94, 48, 81, 38, 56, 40, 6, 288]
 _SHARDS = [16, 16, 8, 16, 8, 16, 6, 8]
 
 CFG = dict(
@@ -31,6 +31,7 @@ CFG = dict(
     types=["packed_channel_reference<u8|u16,First,Num> every First, Num=1..8,12,16",
            "packed_channel_reference<u32|u64,First,Num> selected First, Num=1..8,10,12,16",
            "packed_dynamic_channel_reference<u8|u16|u32|u64,Num> first bit 0..7, Num=1..9,10,12,16",
+           "wide channels: packed_channel_reference<u32|u64,First,24|30>, packed_dynamic_channel_reference<u32,24>, <u64,20|30|32>, bit-aligned 30+30 in u64",
            "bit_aligned_pixel_reference: gray1 gray2 gray4 gray7 bgr121 rgb123 rgb444 rgb565 rgba2222 5x8(u64) rgb3.12.9",
            "packed_pixel: rgb565 bgr556 rgb555 gray3 rgba2222(u8) rgb10.10.10(u32)",
            "bit_aligned_pixel_iterator over gray1 gray2 gray4 gray7 bgr121 rgb123 rgb444 rgb565 5x8"],
